@@ -677,6 +677,40 @@ class Resolver:
                 return self._callable_value(func, val.args[0], module_level, mod)
             if fn_txt.split(".")[-1] in ("lru_cache", "cache") and val.args:
                 return self._callable_value(func, val.args[0], module_level, mod)
+            if not module_level:
+                # a callable returned by a package function: follow its return expressions
+                key = ("retval", func.key, id(val))
+                if key in self._busy:
+                    return None
+                self._busy.add(key)  # type: ignore[arg-type]
+                try:
+                    cs = self.callees(func, val)
+                    if cs.kind == "pkg" and cs.funcs:
+                        fs: list[Func] = []
+                        lib = False
+                        for c in cs.funcs:
+                            rets = [n.value for n in own_nodes(c.node) if isinstance(n, ast.Return) and n.value is not None]
+                            if not rets:
+                                return None
+                            for r in rets:
+                                sub = self._callable_value(c, r)
+                                if sub is None or sub.kind in ("value", "unknown"):
+                                    return None
+                                fs.extend(x for x in sub.funcs if x not in fs)
+                                lib = lib or sub.kind == "lib"
+                        if fs:
+                            return Callees(fs, "pkg")
+                        if lib:
+                            return Callees([], "lib")
+                finally:
+                    self._busy.discard(key)  # type: ignore[arg-type]
+            return None
+        if isinstance(val, ast.Subscript) or (isinstance(val, ast.Call) and isinstance(val.func, ast.Attribute) and val.func.attr == "get"):
+            base = val.value if isinstance(val, ast.Subscript) else val.func.value  # type: ignore[union-attr]
+            tv = self.sym.eval(base, mod)
+            vals = list(tv.values()) if isinstance(tv, dict) else list(tv) if isinstance(tv, (tuple, list)) else []
+            if vals and all(isinstance(x, Ref) and x.kind == "pb" for x in vals):
+                return Callees([], "lib", "api_pb2 class from a registry table")
             return None
         if isinstance(val, ast.Lambda):
             return Callees([], "value", "lambda")
